@@ -175,6 +175,10 @@ func runScenario(d desc) (res result) {
 				r.SetStatusCode(tv.Status)
 				r.SetBody(tv.Body)
 				ctx.TimeoutErrorWithResponse(&r)
+				// TimeoutErrorWithResponse copies: what happens to r afterwards is not sent
+				r.SetStatusCode(299)
+				r.SetBodyString("late-mutation of the caller's response")
+				r.Header.Set("X-Late", "1")
 			default:
 				if tv.Status == fasthttp.StatusRequestTimeout {
 					ctx.TimeoutError(string(tv.Body))
@@ -281,7 +285,7 @@ func runScenario(d desc) (res result) {
 				ver = "HTTP/1.0"
 				extra = "Connection: keep-alive\r\n"
 			}
-			willRun := d.UseSC || tokens < d.Cap
+			willRun := !d.UseSC && tokens < d.Cap
 			if e.RKind == "slow" && willRun && !d.UseSC {
 				held[e.ID] = true
 				tokens++
@@ -402,7 +406,7 @@ func run(d desc) hlib.Case {
 			}
 			reqs[e.Conn] = append(reqs[e.Conn], hlib.Tuple(m, hlib.App("mkRq", hlib.Bool(e.Method == "HEAD"), hlib.Bool(!e.V10), "false"), pk.HexS(smsg)))
 			trace = append(trace, hlib.App("LReqStart", c))
-			has := tokens < d.Cap
+			has := tokens < d.Cap && !d.UseSC
 			switch e.RKind {
 			case "fast":
 				events = append(events, hlib.App("EvReq", c, hlib.App("KFast", hlib.Z(int64(e.Val.Status)), pk.Hex(e.Val.Body))))
@@ -467,7 +471,11 @@ func run(d desc) hlib.Case {
 		wiresC = append(wiresC, hlib.List(ws))
 	}
 	cfg := hlib.App("mkCfg", pk.HexS(serverName(d.Cfg)), hlib.Bool(d.Cfg.NoDate), hlib.Bool(d.Cfg.NoCT), hlib.Bool(d.Cfg.NoNorm), "false")
-	coq := hlib.App("C16Trace", cfg, hlib.Nat(d.Cap), pk.HexS(fixedDate), pk.HexS(d.TMsg), hlib.Z(int64(tcode)),
+	semCap := d.Cap
+	if d.UseSC {
+		semCap = 0 // s.concurrencyCh is nil until Serve has run
+	}
+	coq := hlib.App("C16Trace", cfg, hlib.Nat(d.Cap), hlib.Nat(semCap), pk.HexS(fixedDate), pk.HexS(d.TMsg), hlib.Z(int64(tcode)),
 		hlib.List(events), hlib.List(trace), hlib.List(reqsC), hlib.List(wiresC), hlib.Nat(res.maxrun))
 	sig := d.Tag
 	for _, e := range d.Events {
@@ -643,6 +651,11 @@ func corpus() []desc {
 	// a connection is closed and its ctx re-pooled while a late handler of another connection still runs
 	out = append(out, desc{Cap: 4, TMsg: "t/o", Tag: "pool", Events: []evD{{Kind: "open"}, {Kind: "open"}, slow(0, "GET", 0), fast(1, "GET", "one"), {Kind: "close", Conn: 1},
 		{Kind: "open", Pick: 1}, fast(2, "GET", "two"), late(0, lw("late")), fast(2, "GET", "three"), fast(0, "GET", "four")}})
+	// a server that only ever ran ServeConn: the semaphore channel is nil, every wrapped call is refused
+	for _, m := range []string{"GET", "HEAD"} {
+		out = append(out, desc{Cap: 8, TMsg: "t/o", Tag: "serveconn-only", Key: "timeouthandler-serveconn-only-429", UseSC: true,
+			Events: []evD{{Kind: "open"}, fast(0, m, "hello"), fast(0, "GET", "again")}})
+	}
 	for i := range out {
 		out[i] = launch(out[i])
 	}
